@@ -30,6 +30,7 @@ K_F04 = 'F04-wildcard-prefilter-intersects-all-words-with-the-suffix'
 K_F05 = 'F05-moved-items-keep-old-shared-directory'
 K_ZOMBIE = 'F05b-items-of-removed-directory-stay-searchable-while-a-moved-item-points-at-it'
 K_GC = 'F27-items-of-removed-directory-searchable-until-cyclic-gc'
+K_DUP = 'F29-duplicate-settings-entry-lists-directory-twice'
 
 # ----------------------------------------------------------------------------------------------
 # running a history on the real SharesManager
@@ -308,16 +309,17 @@ def monitor_index(ob_index, disk, settled):
     """Index exactness after everything was rescanned, and the reported counts."""
     out = []
     dirs = [d for d, _ in ob_index['dirs']]
-    nfiles, nfolders = 0, 0
-    for d, its in ob_index['dirs']:
-        nfiles += len(its)
-        nfolders += len({tuple(a[:-1]) for a, _, _, _ in its})
+    files = {tuple(a) for d, its in ob_index['dirs'] for a, _, _, _ in its}
+    nfiles, nfolders = len(files), len({a[:-1] for a in files})
     for d, its in ob_index['dirs']:
         for a, qp, alias, mt in its:
             if innermost(dirs, a) != d:
                 out.append(('index-not-innermost', 'a file is held by a shared directory that is not the innermost one containing it',
                             {'file': a, 'held_by': d, 'innermost': innermost(dirs, a)}))
-    if (nfolders, nfiles) != tuple(ob_index['stats']):
+    if len({tuple(d) for d in dirs}) != len(dirs):
+        out.append((K_DUP, 'a shared directory is listed twice (settings entry repeated): its files and folders are counted / reported twice',
+                    {'dirs': dirs, 'stats': list(ob_index['stats']), 'distinct': [nfolders, nfiles]}))
+    elif (nfolders, nfiles) != tuple(ob_index['stats']):
         key = K_F05 if ob_index['stale'] else 'stats-mismatch'
         out.append((key, f'get_stats() = {tuple(ob_index["stats"])}, the index holds {nfolders} folders / {nfiles} files', {}))
     if settled:
@@ -453,7 +455,7 @@ def vocab_of(files, dirs):
     return sorted(v)
 
 
-def gen_history(rng, tier):
+def gen_history(rng, tier, force_chain=False):
     dirs, files = gen_tree(rng)
     vocab = vocab_of(files, dirs)
     steps = []
@@ -492,10 +494,10 @@ def gen_history(rng, tier):
 
     nested = [(a, b) for a in cand for b in cand if len(b) > len(a) and b[:len(a)] == a]
     chains = [(a, b, c3) for a, b in nested for c3 in cand if len(c3) > len(b) and c3[:len(b)] == b]
-    if chains and rng.random() < 0.5:
+    if chains and (force_chain or rng.random() < 0.5):
         # directed: three nested shared directories, the innermost / middle one removed again
         a, b, c3 = rng.choice(chains)
-        order = rng.choice([[a, b, c3], [c3, a, b], [a, c3, b], [b, c3, a]])
+        order = rng.choice([[a, b, c3], [c3, a, b], [a, c3, b], [b, c3, a], [b, a, c3], [c3, b, a]])
         for d in order:
             steps.append(['add', d, *gen_share(rng)])
             if rng.random() < 0.7:
@@ -554,9 +556,14 @@ def gen_history(rng, tier):
             keep = [d for d in shared if rng.random() < 0.7]
             new = [d for d in cand if d not in shared and rng.random() < 0.25]
             ent = [[d, *gen_share(rng)] for d in keep + new]
+            if ent and rng.random() < 0.08:
+                ent.append([rng.choice(ent)[0], *gen_share(rng)])      # the same path twice in the settings
             rng.shuffle(ent)
             steps.append(['load', ent])
-            shared[:] = [e[0] for e in ent]
+            shared[:] = []
+            for e in ent:
+                if e[0] not in shared:
+                    shared.append(e[0])
         else:
             # on-disk change: touch / delete / create
             for _ in range(rng.randrange(1, 4)):
@@ -664,7 +671,7 @@ def coq_index(nm, idx):
     return (f'HIndex (mkI [{ds}] {nm.sl(idx["keys"])} {idx["nindexed"]}%nat ({idx["stats"][0]}%nat,{idx["stats"][1]}%nat))')
 
 
-HEADER = ('From Coq Require Import NArith List Bool.\nFrom SlskGen Require Import CharTable.\nFrom Slsk Require Import C07.Model.\n'
+HEADER = ('From Coq Require Import NArith List Bool.\nFrom SlskGen Require Import CharTable SharesGen.\nFrom Slsk Require Import C07.Model.\n'
           'Import ListNotations.\nOpen Scope N_scope.\n'
           'Definition HIndex_skip : hstep := HQuery (mkQ [] [] [] [] 0%nat []).\n')
 
@@ -754,6 +761,8 @@ WHAT = {
            'SharedDirectory: their query path, remote path, folder count and lock rules stay those of the old directory',
     K_ZOMBIE: 'after a shared directory is removed, its remaining items stay in the term map (and are returned by searches) for as '
               'long as an item that was moved out of it into a nested shared directory still points at it',
+    K_DUP: 'load_from_settings appends the SharedDirectory object once per settings entry: a path that occurs twice in settings.shares.directories '
+           'is listed twice, get_stats() double-counts its files and folders and shares replies repeat it',
     K_GC: 'remove_shared_directory leaves the directory<->items reference cycle to the cyclic garbage collector: until it happens to '
           'run, the weak sets of the term map keep the items and query() returns files of a directory that is no longer shared',
 }
@@ -780,7 +789,7 @@ def run(run: Run):
                     'CPython re engine: compared with the hand matcher term_occurs on every term/path pair of the run (not proved)']
     run.assumptions += ['file and directory names contain no path separator, newline or character outside the table',
                         'directory aliases do not collide (generate_alias is a 5-letter hash)']
-    run.prove(['tr_chartable'])
+    proved = run.prove(['tr_chartable', 'tr_shares'])
 
     # --- listed findings: replay the stored witnesses first (deterministic KNOWN-FINDING lines)
     for key, wit, _fixed in run.known_witnesses():
@@ -810,8 +819,11 @@ def run(run: Run):
     cases = []
     pairs_paths, pairs_terms = {}, {}
     new_keys = {}
-    for i in range(nhist):
-        hist = gen_history(run.rng, run.tier)
+    # directed search when the tie to the source is broken (a translator refused / a proof no longer compiles): more of the
+    # histories that exercise the regenerated / fingerprinted decisions (three nested shares in every registration order)
+    extra = 0 if proved else 60
+    for i in range(nhist + extra):
+        hist = gen_history(run.rng, run.tier, force_chain=i >= nhist)
         try:
             obs = run_history(hist['files'], hist['steps'])
         except Exception as e:
